@@ -125,6 +125,7 @@ pub fn api() -> ApiDescription<Arc<World>> {
     let m = http::Method::GET;
     let ct = "application/json";
     api.register(ApiEndpoint::new("gate".into(), gate_handler, m.clone(), ct, "/gate/{id}", ApiEndpointVersions::All)).unwrap();
+    api.register(ApiEndpoint::new("gatep".into(), gate_handler, http::Method::PUT, ct, "/gatep/{id}", ApiEndpointVersions::All)).unwrap();
     api.register(ApiEndpoint::new("gated".into(), gate_dropctx_handler, m.clone(), ct, "/gated/{id}", ApiEndpointVersions::All)).unwrap();
     api.register(ApiEndpoint::new("panic".into(), panic_handler, m.clone(), ct, "/panic/{id}", ApiEndpointVersions::All)).unwrap();
     api.register(ApiEndpoint::new("big".into(), big_handler, m.clone(), ct, "/big/{id}", ApiEndpointVersions::All)).unwrap();
@@ -149,6 +150,10 @@ pub enum Kind {
     Gate,
     Panic,
     Big,
+    /// like Gate, but the request carries a 20 kB body that the endpoint never reads
+    GateBody,
+    /// like Gate, but the request announces `Expect: 100-continue` and sends a small body at once
+    GateExpect,
     /// gate handler that drops its RequestContext before waiting
     GateDrop,
 }
@@ -224,7 +229,7 @@ impl WorldCfg {
         WorldCfg {
             mode: if v["mode"] == json!("Detached") { HandlerTaskMode::Detached } else { HandlerTaskMode::CancelOnDisconnect },
             rt: if v["runtime"].as_str().unwrap_or("").starts_with("Current") { RtKind::CurrentThread } else { RtKind::MultiThread(2) },
-            kinds: v["clients"].as_array().unwrap().iter().map(|k| match k.as_str().unwrap() { "Panic" => Kind::Panic, "Big" => Kind::Big, "GateDrop" => Kind::GateDrop, _ => Kind::Gate }).collect(),
+            kinds: v["clients"].as_array().unwrap().iter().map(|k| match k.as_str().unwrap() { "Panic" => Kind::Panic, "Big" => Kind::Big, "GateDrop" => Kind::GateDrop, "GateBody" => Kind::GateBody, "GateExpect" => Kind::GateExpect, _ => Kind::Gate }).collect(),
             with_shutdown: v["with_shutdown"].as_bool().unwrap_or(false),
             with_half: v["with_half"].as_bool().unwrap_or(true),
         }
@@ -320,6 +325,14 @@ fn req_bytes(kind: Kind, id: &str) -> Vec<u8> {
         Kind::Panic => "panic",
         Kind::Big => "big",
         Kind::GateDrop => "gated",
+        Kind::GateBody => {
+            let mut v = format!("PUT /gatep/{id} HTTP/1.1\r\nhost: h\r\nx-marker: {id}\r\ncontent-length: 20000\r\n\r\n").into_bytes();
+            v.extend(std::iter::repeat(b'b').take(20000));
+            return v;
+        }
+        Kind::GateExpect => {
+            return format!("PUT /gatep/{id} HTTP/1.1\r\nhost: h\r\nx-marker: {id}\r\nexpect: 100-continue\r\ncontent-length: 11\r\n\r\nhello world").into_bytes();
+        }
     };
     format!("GET /{p}/{id} HTTP/1.1\r\nhost: h\r\nx-marker: {id}\r\n\r\n").into_bytes()
 }
@@ -486,13 +499,17 @@ pub fn run_history(cfg: &WorldCfg, events: &[Ev], shutdown_window: Duration) -> 
             Ev::Read(i) => {
                 let kind = cfg.kinds[i];
                 if let Some(c) = conns[i].as_mut() {
-                    let r = c.read_response(false, POS);
+                    let mut r = c.read_response(false, POS);
+                    // an interim 100 Continue is not the answer
+                    while matches!(&r, ReadOutcome::Resp(x) if x.status == 100) {
+                        r = c.read_response(false, POS);
+                    }
                     obs = match &r {
                         ReadOutcome::Resp(r) => json!({"status": r.status, "body_len": r.body.len()}),
                         o => json!(format!("{o:?}")),
                     };
                     match kind {
-                        Kind::Gate | Kind::GateDrop => {
+                        Kind::Gate | Kind::GateDrop | Kind::GateBody | Kind::GateExpect => {
                             let ok = matches!(&r, ReadOutcome::Resp(r) if r.status == 200 && r.json().map(|j| j["id"] == json!(ids[i])).unwrap_or(false)
                                 && r.header_str("x-request-id") == r.json().and_then(|j| j["request_id"].as_str().map(|s| s.to_string())));
                             if !ok {
